@@ -7,6 +7,7 @@ CONSTANTS
   ManualKs = FALSE
   ManualDb = FALSE
   PersistShortcut = FALSE
+  SyncBatchSyncs = TRUE
   MaxFaults = 1
   EnPersistCall = TRUE
   FixPoisonAppend = TRUE
